@@ -58,6 +58,22 @@ Recurses(d) ==
              /\ SameContainerKind(NonVoid(h.remove)[1], NonVoid(h.add)[1]))
     ELSE TRUE
 
+(* C07: "equal sub-documents are never mentioned": a hunk that replaces a container by a container of   *)
+(* the same kind must not carry a part that is equal on both sides (it would have been recursed into).  *)
+SharesPart(x, y) ==
+  IF IsObj(x) /\ IsObj(y) THEN \E key \in Keys(x) \cap Keys(y) : x.v[key] = y.v[key]
+  ELSE IF IsArr(x) /\ IsArr(y) THEN \E i \in DOMAIN x.v : \E j \in DOMAIN y.v : x.v[i] = y.v[j]
+  ELSE FALSE
+NoSharedPartReplaced(d) ==
+  \A i \in DOMAIN d :
+    LET h == d[i] IN
+    IF h.merge THEN TRUE
+    ELSE IF IsListHunk(h) THEN
+           \A k \in 1..Min2(Len(h.remove), Len(h.add)) : ~SharesPart(h.remove[k], h.add[k])
+    ELSE IF IsValueHunk(h) THEN
+           ~(Len(NonVoid(h.remove)) = 1 /\ Len(NonVoid(h.add)) = 1 /\ SharesPart(NonVoid(h.remove)[1], NonVoid(h.add)[1]))
+    ELSE TRUE
+
 (* C06: minimality against an independently computed LCS.  Hunks are       *)
 (* grouped by the array they edit; path indices are result coordinates,    *)
 (* so the b-side array is GetX(b, P) and the a-side array is found in the  *)
